@@ -7,6 +7,12 @@
 //!   `mt <kind> <producers> <flushes> <tok>…`  kind `w` (WorkerSink) | `m` (MutexSink); toks `s<p>=<input>`:
 //!        producer thread p merges the inputs carrying its number, in order; a flusher thread issues the flushes
 //!
+//!   `gated <tok>…`  WorkerSink around an inner sink whose `flush` waits at a gate the harness controls, so
+//!        that several flush requests are in flight at once deterministically (`A<h>` start a request and
+//!        leave it in flight, `P` watch the requests in flight, `G0`/`G1` close/open the gate); compared
+//!        with the model like the other pipelines; a request observed complete must find everything sent
+//!        before it already emitted
+//!
 //! Implementation-vs-property oracle (independent of Lean; written from the property statement):
 //! the inputs are grouped per flush epoch and per key with `BTreeMap`s; every epoch must have emitted
 //! exactly one aggregate per distinct key whose sum fields are the sums, whose keep-last field is the
@@ -432,11 +438,35 @@ struct Run {
     exited: Option<bool>,
     /// panics, timeouts
     trouble: Vec<String>,
+    /// observations of the `gated` pipeline, in order
+    gobs: Vec<GObs>,
+}
+
+/// what the `gated` pipeline observes
+#[derive(Clone, Debug)]
+enum GObs {
+    /// state of flush request `k` right after it was issued while the gate was closed, and
+    /// everything emitted so far (both branches) at that moment
+    Flush { k: usize, ready: bool, emitted: (Vec<Agg>, Vec<Agg>) },
+    /// gate closed: the requests in flight that completed during the bounded watch, out of how many
+    Watch { ready: Vec<usize>, in_flight: usize, emitted: (Vec<Agg>, Vec<Agg>) },
+    /// gate opened and every request in flight completed: what was emitted since the last `Sync`/start
+    Sync { upto: usize, delta: (Vec<Agg>, Vec<Agg>) },
+    /// end of the case
+    End { delta: (Vec<Agg>, Vec<Agg>) },
 }
 
 impl Run {
     fn canonical(&self, pipeline: &str) -> String {
         let mut obs: Vec<String> = vec![];
+        for g in &self.gobs {
+            obs.push(match g {
+                GObs::Flush { k, ready, .. } => format!("f{k}:{}", if *ready { "ready" } else { "pending" }),
+                GObs::Watch { ready, in_flight, .. } => format!("P:{}/{}", in_flight - ready.len(), in_flight),
+                GObs::Sync { delta, .. } => format!("G:A[{}]B[{}]", show_list(&delta.0), show_list(&delta.1)),
+                GObs::End { delta } => format!("end:A[{}]B[{}]", show_list(&delta.0), show_list(&delta.1)),
+            });
+        }
         for (i, (a, b)) in self.epochs.iter().enumerate() {
             let pref = if self.end_epoch == Some(i) { "end:" } else { "" };
             match pipeline {
@@ -764,8 +794,259 @@ fn run_worker(c: &Case) -> Run {
     run
 }
 
+// ---- the gated worker: several flush requests in flight, deterministically ----------------------
+
+/// the harness-controlled gate in front of the inner sink's `flush`
+#[derive(Default)]
+struct Gate {
+    closed: Mutex<bool>,
+    cv: std::sync::Condvar,
+}
+impl Gate {
+    fn set(&self, closed: bool) {
+        *self.closed.lock().unwrap() = closed;
+        self.cv.notify_all();
+    }
+    fn pass(&self) {
+        let mut g = self.closed.lock().unwrap();
+        while *g {
+            g = self.cv.wait(g).unwrap();
+        }
+    }
+}
+
+/// inner sink whose `flush` waits at the gate before it flushes (it only slows the worker thread
+/// down at a chosen point; merges are not held)
+struct Gated<S> {
+    inner: S,
+    gate: Arc<Gate>,
+}
+impl<T, S: AggregateSink<T>> AggregateSink<T> for Gated<S> {
+    fn merge(&mut self, entry: T) {
+        self.inner.merge(entry)
+    }
+}
+impl<S: FlushableSink> FlushableSink for Gated<S> {
+    fn flush(&mut self) {
+        self.gate.pass();
+        self.inner.flush()
+    }
+}
+
+type GWorker = WorkerSink<CallEntry, Probe<Gated<TeeInner>>>;
+type FlushFut = std::pin::Pin<Box<dyn std::future::Future<Output = ()>>>;
+
+/// how long a closed-gate watch observes the requests in flight (they must all stay pending)
+const WATCH: Duration = Duration::from_millis(5);
+
+/// polls a flush future once; `Err` = it panicked (the worker dropped the reply channel)
+fn poll_once(f: &mut FlushFut) -> Result<bool, String> {
+    let mut cx = std::task::Context::from_waker(std::task::Waker::noop());
+    catch(|| f.as_mut().poll(&mut cx).is_ready())
+}
+
+struct GState {
+    parts: TeeParts,
+    /// requests in flight: (number, future owning a clone of the handle)
+    in_flight: Vec<(usize, FlushFut)>,
+    started: usize,
+    all_a: Vec<Agg>,
+    all_b: Vec<Agg>,
+    reported_a: usize,
+    reported_b: usize,
+}
+
+impl GState {
+    fn refresh(&mut self) {
+        let (a, b) = self.parts.take();
+        self.all_a.extend(a);
+        self.all_b.extend(b);
+    }
+    fn emitted(&mut self) -> (Vec<Agg>, Vec<Agg>) {
+        self.refresh();
+        (self.all_a.clone(), self.all_b.clone())
+    }
+    fn delta(&mut self) -> (Vec<Agg>, Vec<Agg>) {
+        self.refresh();
+        let d = (self.all_a[self.reported_a..].to_vec(), self.all_b[self.reported_b..].to_vec());
+        self.reported_a = self.all_a.len();
+        self.reported_b = self.all_b.len();
+        d
+    }
+    /// waits (bounded) until every request in flight has completed, then drops the futures
+    fn wait_all(&mut self) -> Result<(), String> {
+        let t0 = std::time::Instant::now();
+        loop {
+            let mut i = 0;
+            while i < self.in_flight.len() {
+                match poll_once(&mut self.in_flight[i].1) {
+                    Ok(true) => {
+                        self.in_flight.remove(i);
+                    }
+                    Ok(false) => i += 1,
+                    Err(p) => return Err(format!("flush-panic:{p}")),
+                }
+            }
+            if self.in_flight.is_empty() {
+                return Ok(());
+            }
+            if t0.elapsed() > exit_wait() {
+                return Err("flush-timeout".into());
+            }
+            std::thread::sleep(Duration::from_micros(100));
+        }
+    }
+}
+
+fn run_gated(c: &Case) -> Run {
+    let mut run = Run::default();
+    let (tee, parts) = make_tee(0);
+    let (dtx, drx) = mpsc::channel();
+    let gate = Arc::new(Gate::default());
+    let first: GWorker =
+        WorkerSink::new(Probe { inner: Gated { inner: tee, gate: gate.clone() }, dropped: dtx }, Duration::from_secs(3600));
+    let mut handles: Vec<Option<GWorker>> = vec![Some(first)];
+    let mut st = GState { parts, in_flight: vec![], started: 0, all_a: vec![], all_b: vec![], reported_a: 0, reported_b: 0 };
+    let mut closed = false;
+    let mut exited = false;
+    // wait for the requests in flight; if no sender is left afterwards, for the worker's exit
+    let sync = |st: &mut GState, handles: &Vec<Option<GWorker>>, exited: &mut bool, run: &mut Run| -> bool {
+        if let Err(e) = st.wait_all() {
+            run.trouble.push(e);
+            return false;
+        }
+        if !*exited && handles.iter().all(|h| h.is_none()) {
+            *exited = drx.recv_timeout(exit_wait()).is_ok();
+            if !*exited {
+                run.exited = Some(false);
+                return false;
+            }
+        }
+        true
+    };
+    let mut ok = true;
+    for t in &c.toks {
+        let live = |handles: &Vec<Option<GWorker>>, h: usize| handles.get(h).map(|x| x.is_some()).unwrap_or(false);
+        match (t.tag, t.idx, &t.input) {
+            ('s', Some(h), Some(i)) => {
+                if live(&handles, h) {
+                    handles[h].as_ref().unwrap().send(i.call().close());
+                }
+            }
+            ('c', Some(h), None) => {
+                if live(&handles, h) {
+                    let n = handles[h].as_ref().unwrap().clone();
+                    handles.push(Some(n));
+                }
+            }
+            ('x', Some(h), None) => {
+                if live(&handles, h) {
+                    handles[h] = None;
+                }
+            }
+            ('A', Some(h), None) => {
+                if live(&handles, h) {
+                    let own = handles[h].as_ref().unwrap().clone();
+                    let mut fut: FlushFut = Box::pin(async move { own.flush().await });
+                    let k = st.started;
+                    st.started += 1;
+                    // the first poll puts the request on the channel
+                    match poll_once(&mut fut) {
+                        Ok(ready) => {
+                            if closed {
+                                let emitted = st.emitted();
+                                run.gobs.push(GObs::Flush { k, ready, emitted });
+                            }
+                            // (with the gate open the worker may have answered already: a completed
+                            // future must not be polled again)
+                            if !ready {
+                                st.in_flight.push((k, fut));
+                            }
+                        }
+                        Err(p) => {
+                            run.trouble.push(format!("flush-panic:{p}"));
+                            ok = false;
+                        }
+                    }
+                }
+            }
+            ('P', None, None) => {
+                if closed {
+                    let n = st.in_flight.len();
+                    let t0 = std::time::Instant::now();
+                    let mut ready = vec![];
+                    loop {
+                        let mut i = 0;
+                        while i < st.in_flight.len() {
+                            match poll_once(&mut st.in_flight[i].1) {
+                                Ok(true) => {
+                                    ready.push(st.in_flight[i].0);
+                                    st.in_flight.remove(i);
+                                }
+                                Ok(false) => i += 1,
+                                Err(p) => {
+                                    run.trouble.push(format!("flush-panic:{p}"));
+                                    ok = false;
+                                    break;
+                                }
+                            }
+                        }
+                        if !ok || t0.elapsed() > WATCH {
+                            break;
+                        }
+                        std::thread::sleep(Duration::from_micros(200));
+                    }
+                    let emitted = st.emitted();
+                    run.gobs.push(GObs::Watch { ready, in_flight: n, emitted });
+                }
+            }
+            ('G', Some(0), None) => {
+                // closing a closed gate is ignored (waiting here would wait for the gate itself)
+                if !closed {
+                    ok = sync(&mut st, &handles, &mut exited, &mut run);
+                    closed = true;
+                    gate.set(true);
+                }
+            }
+            ('G', Some(1), None) => {
+                closed = false;
+                gate.set(false);
+                ok = sync(&mut st, &handles, &mut exited, &mut run);
+                if ok {
+                    let delta = st.delta();
+                    run.gobs.push(GObs::Sync { upto: st.started, delta });
+                }
+            }
+            _ => {
+                run.trouble.push(format!("harness: bad token {}", t.encode()));
+                ok = false;
+            }
+        }
+        if !ok {
+            break;
+        }
+    }
+    gate.set(false);
+    if ok {
+        ok = sync(&mut st, &handles, &mut exited, &mut run);
+    }
+    st.in_flight.clear();
+    handles.clear();
+    if !exited {
+        exited = drx.recv_timeout(exit_wait()).is_ok();
+    }
+    run.exited = Some(exited);
+    if ok {
+        let delta = st.delta();
+        run.gobs.push(GObs::End { delta });
+    }
+    run.raw = Some(st.parts.raw.entries());
+    run
+}
+
 fn run_impl(c: &Case) -> Run {
     match c.pipeline() {
+        "gated" => run_gated(c),
         "keyed" => run_keyed(c),
         "tee" => run_tee(c),
         "embedded" => run_embedded(c),
@@ -964,7 +1245,172 @@ fn expected_epochs(c: &Case) -> (Vec<Vec<In>>, Vec<In>) {
     (epochs, raw)
 }
 
+/// canonical text of the aggregate a group of inputs must produce (written from the property, for
+/// multiset comparison of emissions whose epoch boundaries are not visible)
+fn want_agg(endpoint: &str, shard: Option<u64>, t: &Totals) -> String {
+    let dist = if t.dist.is_empty() { "-".to_string() } else { t.dist.iter().map(|(v, c)| format!("{v}*{c}")).collect::<Vec<_>>().join("+") };
+    format!(
+        "{}:{}:{}:{}:{}:{}:{}",
+        hex(endpoint.as_bytes()),
+        shard.map(|s| s.to_string()).unwrap_or("-".into()),
+        t.bytes,
+        t.last.map(|v| v.to_string()).unwrap_or("-".into()),
+        dist,
+        t.opt,
+        t.inner
+    )
+}
+
+fn want_epoch(inputs: &[In]) -> (Vec<String>, Vec<String>) {
+    let mut a: BTreeMap<(String, u64), Totals> = BTreeMap::new();
+    let mut b: BTreeMap<String, Totals> = BTreeMap::new();
+    for i in inputs {
+        a.entry(key_a(i)).or_default().add(i);
+        b.entry(key_b(i)).or_default().add(i);
+    }
+    (
+        a.iter().map(|((e, s), t)| want_agg(e, Some(*s), t)).collect(),
+        b.iter().map(|(e, t)| want_agg(e, None, t)).collect(),
+    )
+}
+
+/// is `want` a sub-multiset of `have`?
+fn sub_multiset(want: &[String], have: &[String]) -> Option<String> {
+    let mut h: BTreeMap<&String, i64> = BTreeMap::new();
+    for x in have {
+        *h.entry(x).or_insert(0) += 1;
+    }
+    for w in want {
+        let e = h.entry(w).or_insert(0);
+        *e -= 1;
+        if *e < 0 {
+            return Some(w.clone());
+        }
+    }
+    None
+}
+
+/// the `gated` pipeline: the channel order is the order of the operations (a request is on the
+/// channel when `A` returns), so the epoch closed by flush request k is known from the tokens
+fn oracle_gated(c: &Case, run: &Run) -> Option<String> {
+    // epochs[k] = inputs sent after request k-1 and before request k; rest = inputs after the last request
+    let mut handles = vec![true];
+    let mut epochs: Vec<Vec<In>> = vec![];
+    let mut cur: Vec<In> = vec![];
+    let mut raw: Vec<In> = vec![];
+    for t in &c.toks {
+        let live = t.idx.map(|h| handles.get(h).copied().unwrap_or(false)).unwrap_or(false);
+        match (t.tag, t.idx, &t.input) {
+            ('s', _, Some(i)) if live => {
+                cur.push(i.clone());
+                raw.push(i.clone());
+            }
+            ('A', _, _) if live => epochs.push(std::mem::take(&mut cur)),
+            ('c', _, _) if live => handles.push(true),
+            ('x', Some(h), _) if live => handles[h] = false,
+            _ => {}
+        }
+    }
+    let strings = |l: &[Agg]| l.iter().map(show_agg).collect::<Vec<_>>();
+    // a completed request: everything sent before it must already have been emitted
+    let completed = |k: usize, emitted: &(Vec<Agg>, Vec<Agg>)| -> Option<String> {
+        let (mut wa, mut wb) = (vec![], vec![]);
+        for e in &epochs[..=k.min(epochs.len().saturating_sub(1))] {
+            let (a, b) = want_epoch(e);
+            wa.extend(a);
+            wb.extend(b);
+        }
+        if let Some(m) = sub_multiset(&wa, &strings(&emitted.0)) {
+            return Some(format!("flush request #{k} completed but the aggregate {m} of entries sent before it has not been emitted (branch A)"));
+        }
+        if let Some(m) = sub_multiset(&wb, &strings(&emitted.1)) {
+            return Some(format!("flush request #{k} completed but the aggregate {m} of entries sent before it has not been emitted (branch B)"));
+        }
+        None
+    };
+    let mut reported = 0usize; // epochs already accounted for by a Sync
+    for g in &run.gobs {
+        match g {
+            GObs::Flush { k, ready, emitted } => {
+                if *ready {
+                    if let Some(w) = completed(*k, emitted) {
+                        return Some(w);
+                    }
+                }
+            }
+            GObs::Watch { ready, emitted, .. } => {
+                for k in ready {
+                    if let Some(w) = completed(*k, emitted) {
+                        return Some(w);
+                    }
+                }
+            }
+            GObs::Sync { upto, delta } => {
+                // every request issued so far has completed: exactly the epochs they close were emitted
+                // (plus, when the worker exited meanwhile, the rest)
+                let (mut wa, mut wb) = (vec![], vec![]);
+                for e in &epochs[reported.min(epochs.len())..(*upto).min(epochs.len())] {
+                    let (a, b) = want_epoch(e);
+                    wa.extend(a);
+                    wb.extend(b);
+                }
+                if let Some(m) = sub_multiset(&wa, &strings(&delta.0)).or_else(|| sub_multiset(&wb, &strings(&delta.1))) {
+                    return Some(format!(
+                        "flush requests up to #{} completed but the aggregate {m} of entries sent before them has not been emitted",
+                        upto.saturating_sub(1)
+                    ));
+                }
+                reported = *upto;
+            }
+            GObs::End { .. } => {}
+        }
+    }
+    // over the whole run: per epoch one aggregate per key, nothing else, nothing twice
+    let (mut wa, mut wb) = (vec![], vec![]);
+    for e in epochs.iter().chain(std::iter::once(&cur)) {
+        let (a, b) = want_epoch(e);
+        wa.extend(a);
+        wb.extend(b);
+    }
+    let (mut ga, mut gb) = (vec![], vec![]);
+    for g in &run.gobs {
+        if let GObs::Sync { delta, .. } | GObs::End { delta } = g {
+            ga.extend(strings(&delta.0));
+            gb.extend(strings(&delta.1));
+        }
+    }
+    wa.sort();
+    wb.sort();
+    ga.sort();
+    gb.sort();
+    if wa != ga {
+        return Some(format!("over the whole run branch A emitted {ga:?}, the epochs' inputs give {wa:?}"));
+    }
+    if wb != gb {
+        return Some(format!("over the whole run branch B emitted {gb:?}, the epochs' inputs give {wb:?}"));
+    }
+    if let Some(r) = &run.raw {
+        let want = if raw.is_empty() { "-".to_string() } else { raw.iter().map(|i| format!("{}:{}:{}", hex(i.endpoint.as_bytes()), i.shard, i.bytes)).collect::<Vec<_>>().join(";") };
+        if show_raw(r) != want {
+            return Some(format!("non-aggregated branch received {}, the inputs were {want}", show_raw(r)));
+        }
+    }
+    None
+}
+
 fn oracle(c: &Case, run: &Run) -> Option<String> {
+    if c.pipeline() == "gated" {
+        if let Some(t) = run.trouble.first() {
+            return Some(match t.as_str() {
+                "flush-timeout" => "a flush request did not complete within 20 s although the gate was open".into(),
+                t => format!("run failed: {t}"),
+            });
+        }
+        if run.exited == Some(false) {
+            return Some("worker thread still holds its inner sink 20 s after the last handle was dropped (it did not terminate)".into());
+        }
+        return oracle_gated(c, run);
+    }
     if let Some(t) = run.trouble.first() {
         return Some(match t.as_str() {
             "flush-timeout" => "a flush request did not complete within 20 s".into(),
@@ -1154,12 +1600,84 @@ fn gen_case(rng: &mut Rng, pipeline: &str, nasty: bool, max_len: u64) -> Case {
                 }
             }
         }
+        "gated" => {
+            // flush requests left in flight, mostly while the gate is closed
+            let mut handles = vec![true];
+            let mut closed = false;
+            for _ in 0..n {
+                let live: Vec<usize> = (0..handles.len()).filter(|h| handles[*h]).collect();
+                let h = if live.is_empty() || (nasty && rng.chance(1, 15)) { rng.below(handles.len() as u64 + 1) as usize } else { *rng.pick(&live) };
+                let is_live = handles.get(h).copied().unwrap_or(false);
+                match rng.below(40) {
+                    0..=13 => toks.push(Tok::new('s', Some(h), Some(gen_input(rng, nasty)))),
+                    14..=24 => toks.push(Tok::new('A', Some(h), None)),
+                    25..=30 if !closed => {
+                        toks.push(Tok::new('G', Some(0), None));
+                        closed = true;
+                    }
+                    25..=27 => {
+                        toks.push(Tok::new('G', Some(1), None));
+                        closed = false;
+                    }
+                    28..=30 => toks.push(Tok::new('A', Some(h), None)),
+                    31..=32 if closed => toks.push(Tok::new('P', None, None)),
+                    33..=35 => {
+                        toks.push(Tok::new('c', Some(h), None));
+                        if is_live {
+                            handles.push(true);
+                        }
+                    }
+                    36 => {
+                        toks.push(Tok::new('x', Some(h), None));
+                        if is_live {
+                            handles[h] = false;
+                        }
+                    }
+                    _ => toks.push(Tok::new('A', Some(h), None)),
+                }
+            }
+            if rng.chance(1, 2) {
+                toks.push(Tok::new('G', Some(1), None));
+            }
+        }
         _ => unreachable!(),
     }
     Case { head: vec![pipeline.to_string()], toks }
 }
 
+/// `gated`: the largest number of flush requests in flight at once while the gate is closed
+fn max_overlap(c: &Case) -> usize {
+    let (mut closed, mut in_flight, mut best) = (false, 0usize, 0usize);
+    let mut handles = vec![true];
+    for t in &c.toks {
+        let live = t.idx.map(|h| handles.get(h).copied().unwrap_or(false)).unwrap_or(false);
+        match (t.tag, t.idx) {
+            ('G', Some(0)) => {
+                closed = true;
+                in_flight = 0;
+            }
+            ('G', Some(1)) => {
+                closed = false;
+                in_flight = 0;
+            }
+            ('A', _) if live => {
+                in_flight += 1;
+                if closed {
+                    best = best.max(in_flight);
+                }
+            }
+            ('c', _) if live => handles.push(true),
+            ('x', Some(h)) if live => handles[h] = false,
+            _ => {}
+        }
+    }
+    best
+}
+
 fn is_nontrivial(c: &Case) -> bool {
+    if c.pipeline() == "gated" {
+        return max_overlap(c) >= 2;
+    }
     // at least two inputs share a key and (for flushable pipelines) the case has a flush or an end-of-life emission
     let ins: Vec<&In> = c.toks.iter().filter_map(|t| t.input.as_ref()).collect();
     let mut keys = BTreeMap::new();
@@ -1451,7 +1969,8 @@ fn main() {
         &args,
         "aggregation",
         "case = (pipeline, operation sequence over a real #[aggregate] struct); non-trivial = at least two inputs \
-         are merged into the same aggregate (same key, or any two inputs for the key-less pipelines); distinct by case text",
+         are merged into the same aggregate (same key, or any two inputs for the key-less pipelines); for the gated \
+         worker: at least two flush requests are in flight at once while the gate is closed; distinct by case text",
     );
     let mut rng = Rng::new(args.seed);
     let thorough = args.thorough();
@@ -1498,6 +2017,11 @@ fn main() {
             let kind = if k % 3 == 0 { "m" } else { "w" };
             cases.push(Case { head: vec!["mt".into(), kind.into(), producers.to_string(), flushes.to_string()], toks });
         }
+        // overlapping flush requests behind a gate
+        let n_gated = if thorough { 8000 } else { 400 };
+        for k in 0..n_gated {
+            cases.push(gen_case(&mut rng, "gated", k % 3 == 2, if thorough { 40 } else { 25 }));
+        }
     }
 
     let mut requests: Vec<String> = vec![];
@@ -1508,7 +2032,7 @@ fn main() {
     for (ci, c) in cases.iter().enumerate() {
         let enc = c.encode();
         encoded.push(enc.clone());
-        if liveness_failures > 0 && matches!(c.pipeline(), "worker" | "timed" | "mt") {
+        if liveness_failures > 0 && matches!(c.pipeline(), "worker" | "timed" | "mt" | "gated") {
             // do not pile up stuck threads: one witness is enough
             rep.bump("skipped:worker case after a liveness failure");
             continue;
@@ -1550,9 +2074,15 @@ fn main() {
                 answers.push((ci, "aggregation/trace-mt".into(), "ok".into()));
             }
             _ => {
+                if std::env::var("C10_TRACE").is_ok() {
+                    eprintln!("{enc}");
+                }
                 let run = run_impl(c);
                 rep.case(&enc, is_nontrivial(c));
                 rep.bump_by("flush observations", run.epochs.len() as u64);
+                if c.pipeline() == "gated" {
+                    rep.bump(&format!("gated:max flush requests in flight behind the closed gate:{}", max_overlap(c).min(4)));
+                }
                 rep.bump_by("aggregates emitted", run.epochs.iter().map(|(a, b)| (a.len() + b.len()) as u64).sum());
                 if ci % 499 == 0 {
                     rep.sample(json!({"case": enc, "impl": run.canonical(c.pipeline())}));
@@ -1571,7 +2101,19 @@ fn main() {
                         WAIT_MS.store(20_000, Ordering::Relaxed);
                         pick
                     } else {
-                        shrink_case(c, |cc| oracle(cc, &run_impl(cc)).is_some())
+                        // thread timing can matter when the gate is open: a reduction must fail three times in a row
+                        if c.pipeline() == "gated" {
+                            // the gate makes the interleaving deterministic: first shrink with the gate
+                            // operations pinned, then drop gate operations only if the requests still
+                            // overlap behind the closed gate and the failure stays (ten runs in a row)
+                            let gates = |x: &Case| x.toks.iter().filter(|t| t.tag == 'G').count();
+                            let g0 = gates(c);
+                            let s1 = shrink_case(c, |cc| gates(cc) == g0 && (0..2).all(|_| oracle(cc, &run_impl(cc)).is_some()));
+                            let need = max_overlap(&s1).min(2);
+                            shrink_case(&s1, |cc| max_overlap(cc) >= need && (0..10).all(|_| oracle(cc, &run_impl(cc)).is_some()))
+                        } else {
+                            shrink_case(c, |cc| oracle(cc, &run_impl(cc)).is_some())
+                        }
                     };
                     let mut small = small;
                     let mut r2 = run_impl(&small);
